@@ -467,10 +467,24 @@ def check_sync(run: Run, prog: Program, rule: str = "C19.SYNC") -> None:
     ok = any(r in body for r in recv)
     run.check(ok, rule, fn.qual, "catch-up loop advances the fallback", "the catch-up loop does not read the "
               "fallback stream", node=w.ast, file=fn.file)
-    first = [t2 for t2 in cfg.nodes if t2.kind == "test" and t2.ast is not None
-             and canon(t2.ast) == ("is", frozenset({LATEST, "None"}))]
-    run.check(len(first) == 1, rule, fn.qual, f"first use: {LATEST} is None -> fetch",
-              "the first fallback sample is not fetched lazily", node=fn.node, file=fn.file)
+    # first use: while nothing has been read from the fallback yet, it is read before anything is compared / returned
+    def none_atom(is_none: bool) -> Any:
+        def atom(e: ast.AST, _nid: int) -> bool | None:
+            ta = truth_atom(e)
+            if ta is not None and u(ta[0]) == LATEST:
+                return is_none if ta[1] else not is_none
+            if u(e) == LATEST:
+                return not is_none
+            return None
+        return lifted(fl, atom)
+
+    mentions = [t2 for t2 in cfg.nodes if t2.kind in ("test", "while") and t2.ast is not None and t2.id in fl.live and any(
+        (lambda ta: ta is not None and u(ta[0]) == LATEST)(truth_atom(x)) for x in ast.walk(t2.ast if t2.kind == "test" else t2.ast.test))]  # type: ignore[union-attr]
+    wit = cfg.path(cfg.entry, [t.id] + rets_val, avoid=recv, edge_ok=pruned(cfg, none_atom(True), normal_only=False))
+    lazy = cfg.path(cfg.entry, [t.id], avoid=[r for r in recv if cfg.nodes[r].kind == "stmt"],
+                    edge_ok=pruned(cfg, none_atom(False), normal_only=False)) is not None
+    run.check(len(mentions) == 1 and wit is None and lazy, rule, fn.qual, f"first use: {LATEST} is None -> fetch",
+              "the first fallback sample is not fetched lazily", node=fn.node, file=fn.file, path=cfg.describe_path(wit))
 
 
 def check_buf(run: Run, prog: Program) -> None:
